@@ -20,7 +20,8 @@ pub const DEF: PropDef = PropDef {
            to 0 / 1 / true-1 / true+1 / max / random, truncation, byte overwrite, bit flip, splice; allocation-dense shapes: 16640 one-byte messages, thousands of empty \
            certificates / extensions / SNI names / SCTs, 32767 ciphers) is given to every public parsing entry point (about 120 closures: all pub fn parse_* / tls_parser*, the derived \
            ::parse methods, parse_content_and_signature with three content parsers and both flags), extra arguments (len: usize incl. 0..8, body length +-1, 2^24-1, usize::MAX; \
-           arbitrary record headers; u16 lengths) drawn from the tape; every Ok and Err value is formatted with {:?} (and {} / {:x} where implemented). The call must return (panics, \
+           arbitrary record headers; u16 lengths) drawn from the tape; public parse functions and Nom-deriving types found in the sources of the tree under test that the table does \
+           not name are added at build time with generated arguments (entry_point_census); every Ok and Err value is formatted with {:?} and {:#?} (and {} / {:#} / {:x} where implemented). The call must return (panics, \
            overflow and bounds errors are caught: the harness is built with debug-assertions and overflow-checks), and peak live bytes and total requested bytes, measured by a \
            per-thread counting allocator, must stay <= 64 KiB + K*len (parse) and 64 KiB + 1024*len (formatting). assets = the four files of /repo/assets at every prefix length. \
            histories = up to 40 (thorough: 700) operations on one TlsRecordsParser, values formatted while borrowed, bound 64 KiB + 10 MiB + (K+2)*bytes fed. \
@@ -46,6 +47,24 @@ pub const SUBS: &[SubDef] = &[
 ];
 
 fn run(ctx: &Ctx) {
+    // which public parsing entry points does the tree under test have, and which of them are run? (harness/vcheck/build.rs)
+    ctx.run_fn("entry_point_census", true, "pub fn with a byte-slice first parameter and an IResult result, and types deriving Nom*, found by scanning the sources of the tree under test at build time", |obs| {
+        let (found, in_table, added, skipped) = AUTO_COUNTS;
+        obs.evals_add(found as u64);
+        for _ in 0..in_table {
+            obs.class("named-by-the-hand-written-table");
+        }
+        for _ in 0..added {
+            obs.class("added-automatically");
+        }
+        for (n, why) in AUTO_SKIPPED {
+            obs.class("not-callable-mechanically");
+            obs.sample(json!({"entry_point": n, "not_run_because": why}));
+        }
+        obs.sample(json!({"found_in_sources": found, "named_by_table": in_table, "added_automatically": added, "not_callable_mechanically": skipped, "table_size": entries().len()}));
+        obs.nontrivial(found as u64);
+        Ok(())
+    });
     ctx.run_tape("entry_points", entry_points, ctx.pick(6_000, 300_000), 600);
     let mut cases = Vec::new();
     for (fi, f) in asset_files().iter().enumerate() {
@@ -119,7 +138,7 @@ struct EpOut {
     cls: Cls,
 }
 
-fn classify<T>(r: &IResult<&[u8], T>) -> Cls {
+fn classify<I, T, E>(r: &Result<(I, T), Err<E>>) -> Cls {
     match r {
         Ok(_) => Cls::Ok,
         Err(Err::Incomplete(_)) => Cls::Incomplete,
@@ -131,7 +150,7 @@ fn classify<T>(r: &IResult<&[u8], T>) -> Cls {
 fn ep<'a, T: Debug>(i: &'a [u8], f: impl FnOnce(&'a [u8]) -> IResult<&'a [u8], T>) -> EpOut {
     let (r, parse) = alloc::measure(|| f(i));
     let cls = classify(&r);
-    let (_s, fmt) = alloc::measure(|| format!("{:?}", r).len());
+    let (_s, fmt) = alloc::measure(|| format!("{:?}", r).len() + format!("{:#?}", r).len());
     EpOut { parse, fmt, cls }
 }
 
@@ -140,9 +159,9 @@ fn epd<'a, T: Debug + std::fmt::Display>(i: &'a [u8], f: impl FnOnce(&'a [u8]) -
     let (r, parse) = alloc::measure(|| f(i));
     let cls = classify(&r);
     let (_s, fmt) = alloc::measure(|| {
-        let mut n = format!("{:?}", r).len();
+        let mut n = format!("{:?}", r).len() + format!("{:#?}", r).len();
         if let Ok((_, v)) = &r {
-            n += format!("{}", v).len();
+            n += format!("{}", v).len() + format!("{:#}", v).len();
         }
         n
     });
@@ -204,7 +223,46 @@ macro_rules! el {
     };
 }
 
+/// formatting of a result whose type this file does not know (generated entries): Debug, compact and pretty, when the type has it
+struct MaybeDebug<'x, T>(&'x T);
+trait FmtViaDebug {
+    fn fmt_len(&self) -> usize;
+}
+impl<'x, T: Debug> FmtViaDebug for MaybeDebug<'x, T> {
+    fn fmt_len(&self) -> usize {
+        format!("{:?}", self.0).len() + format!("{:#?}", self.0).len()
+    }
+}
+trait FmtNotAtAll {
+    fn fmt_len(&self) -> usize;
+}
+impl<'x, 'y, T> FmtNotAtAll for &'y MaybeDebug<'x, T> {
+    fn fmt_len(&self) -> usize {
+        0
+    }
+}
+
+/// generated entries: `epa!(i, call)` parses (measured) and formats the result (measured)
+#[allow(unused_macros)]
+macro_rules! epa {
+    ($i:ident, $call:expr) => {{
+        let $i: &[u8] = $i;
+        let (r, parse) = alloc::measure(|| $call);
+        let cls = classify(&r);
+        let (_s, fmt) = alloc::measure(|| (&MaybeDebug(&r)).fmt_len());
+        EpOut { parse, fmt, cls }
+    }};
+}
+
+include!(concat!(env!("OUT_DIR"), "/auto_entries.rs"));
+
 fn entries() -> Vec<Entry> {
+    let mut v = hand_entries();
+    v.extend(auto_entries());
+    v
+}
+
+fn hand_entries() -> Vec<Entry> {
     vec![
         // records
         e1!(parse_tls_record_header),
